@@ -183,6 +183,10 @@ func Run(c *ev.Ctx) {
 		part{tp: cmdlib.TxnService(api.ServiceCAS, "n1", cmdlib.SvcSpec{Name: "api", Port: 3}, cmdlib.IdxStale), staleTable: "services", staleRow: `ServiceID:"api"`},
 		part{tp: cmdlib.TxnCheck(api.CheckGet, "n1", sc1, 0), noop: true, read: true},
 		part{tp: cmdlib.TxnSessionDelete("s1"), equiv: eq(cmdlib.SessionDestroy("s1"))},
+		// a plain write to the very row a conditional verb of the list names (the conditional verb then has to see it)
+		part{tp: cmdlib.TxnCheck(api.CheckSet, "n1", cmdlib.CheckSpec{ID: "sc1", Status: api.HealthWarning, ServiceID: "web", SvcName: "web"}, 0)},
+		part{tp: cmdlib.TxnService(api.ServiceSet, "n1", cmdlib.SvcSpec{Name: "api", Port: 9}, 0)},
+		part{tp: cmdlib.TxnService(api.ServiceDeleteCAS, "n1", cmdlib.SvcSpec{Name: "api", Port: 2}, cmdlib.IdxCurrent)},
 		// mesh rows: derived tables (upstream/downstream topology with per-instance references, kind names, virtual
 		// IPs, gateway links) are edited by these verbs; a rolled-back transaction must leave them alone too
 		part{tp: cmdlib.TxnService(api.ServiceDelete, "n1", cmdlib.FProxy, 0), equiv: eq(cmdlib.DeregService("n1", cmdlib.FProxy.ID, ""))},
